@@ -23,6 +23,7 @@ LOCALS = {"len": 0, "copy_len": 1, "n_extra_blocks": 2}
 
 class Tr(gen_submit.Tr):
     topup = False
+    expect_submit = None
 
     def __init__(self, enums):
         super().__init__(enums)
@@ -217,6 +218,9 @@ class Tr(gen_submit.Tr):
                         continue
                     if l0.get("kind") == "DeclRefExpr" and l0["referencedDecl"]["name"] == "ctx":
                         r = strip(rhs)
+                        if r.get("kind") == "CallExpr" and re.search(r"_mb_mgr_submit_|_sb_mgr_submit_", callee(r) or "") and \
+                                self.expect_submit and not re.fullmatch(self.expect_submit, callee(r)):
+                            raise NoFit("calls %s (another algorithm / family)" % callee(r))
                         if self.topup and r.get("kind") == "CallExpr" and re.search(r"_mb_mgr_submit_|_sb_mgr_submit_", callee(r) or "") \
                                 and self.job_buf == "part" and self.job_len:
                             emit(".submitPart (%s)" % self.job_len)
@@ -318,6 +322,8 @@ def main(argv=None):
     for rel, fn in ctx_files(repo):
         try:
             body = None
+            alg_, fam_ = os.path.basename(rel)[:-2].split("_ctx_")
+            tr.expect_submit = r"_%s_(mb|sb)_mgr_submit_%s" % (re.escape(alg_), re.escape({"avx512_ni": "avx512"}.get(fam_, fam_).replace("sb_", "")))   # by design the avx512_ni family submits through the avx512 manager (same layout; its own flush)
             for d in clang_json(repo, rel, fn):
                 if d.get("kind") == "FunctionDecl" and d.get("name") == fn:
                     cs = [c for c in kids(d) if c.get("kind") == "CompoundStmt"]
